@@ -94,6 +94,10 @@ def gen_history(rng, n, watch=False):
             ops.append("b85:%d:%d:%d" % rng.choice([(0, 12, 0), (1, 0, 1), (2, 0, 0), (3, 32, 5), (4, 21, 2), (1, 0, -1)]))
         elif r < 0.93 and not watch:
             ops.append("rep:%d:%d:%d" % (rng.choice([0, 1]), 0, rng.choice([0, 1, 2])))
+            if rng.random() < 0.5:
+                # ... and exports to the client's one output file: a long report first, shorter ones later
+                ops.append("exp:%d:%d:%d" % (rng.choice([0, 1]), 0, rng.choice([3, 2])))
+                ops.append("exp:%d:%d:%d" % (rng.choice([0, 1]), 0, rng.choice([0, 1])))
         elif r < 0.96 and not watch:
             ops.append("was")
         elif r < 0.98:
@@ -123,6 +127,12 @@ def cases(rng, tier):
             w = "xkey:" + sx(node.extended_public_key())
         n = rng.randint(5, 60) if tier == "quick" else rng.randint(5, 400 if i % 10 == 0 else 80)
         yield "hist %s %s" % (w, ";".join(gen_history(rng, n, watch))), "history-watch" if watch else "history"
+    # the client's output file over a history: long export, short export, the same again after other requests
+    for _ in range(1 if tier == "quick" else 10):
+        a = rng.choice([0, 1])
+        yield "hist %s %s" % (wspec(rng), ";".join(
+            ["exp:%d:0:%d" % (a, rng.choice([2, 3, 5])), "exp:%d:0:%d" % (rng.choice([0, 1]), rng.choice([0, 1])),
+             "rep:0:0:1", "exp:0:0:1", "exp:1:0:2", "exp:0:0:0"] + gen_history(rng, 5, False))), "history-export-file"
     yield from _collision_cases(rng, tier)
 
 
